@@ -40,7 +40,8 @@ def run(ctx):
     early = [v for v in vecs if "meta" in v["id"]]
     rest = [v for v in vecs if "meta" not in v["id"]]
     rich = frw.on_files(vecs if not quick else early + frw.sample(ctx, rest, 40),
-                        ["corpus/rich/r1.go", "corpus/rich/r2.go", "corpus/inter/inter.go", "corpus/nearmiss/nm_stmt.go"], "no-match identity")
+                        ["corpus/rich/r1.go", "corpus/rich/r2.go", "corpus/inter/inter.go", "corpus/nearmiss/nm_stmt.go",
+                         "corpus/nearmiss/nm_expr.go", "corpus/nearmiss/nm_decl.go"], "no-match identity")
     nst = frw.nomatch_identity(ctx, frw.replay_and_judge(ctx, "nomatch", rich, None, shards=16))
     if nst["unmatched"] == 0:
         raise fr.Infra("vacuous: no unmatched (pattern, file) pair")
